@@ -64,6 +64,25 @@ def load_file_summary(I, func, self_val, args, kwargs, node, fr):
     return lift_skeleton(I, doc)
 
 
+def yaml_load_summary(I, func, recv, args, kwargs, node, fr):
+    """yaml.load(stream=open(<PATH>).read(), ...): the document registered for that path in run.user['docs']"""
+    import re as _re
+    stream = kwargs.get("stream", args[0] if args else None)
+    ex = I.expr_of(stream)
+    m = _re.search(r"open\((?:file=)?(<[^>]*>)", ex)
+    key = m.group(1) if m else ex
+    I.run.event("load_file", file=Str.lit(key) if False else Unknown(key, {"expr": key}))
+    docs = I.run.user.get("docs", {})
+    doc = docs.get(key, I.run.user.get("rule_doc"))
+    if doc is None:
+        return Unknown("loaded_yaml", {"truthy": True, "not_none": True})
+    from .models import lift_skeleton
+    return lift_skeleton(I, doc)
+
+
+YAML_SUMMARIES = {"extern:yaml.load": yaml_load_summary, "extern:yaml.safe_load": yaml_load_summary}
+
+
 def match_interp(program) -> Interp:
     return make_interp(program, {"ObjdumpParserManual.parse": parse_summary,
                                  "ValidAddrObserver.observe_instruction": valid_addr_summary,
